@@ -467,6 +467,13 @@ def protected(pm, node: ast.AST, exc: str, stop: Optional[ast.AST] = None):
     h = q.protected_by(pm, node, exc, stop)
     if h is not None:
         return h
+    # builtin OSError subclasses the frozen hierarchy of q does not list: a handler for a base class catches them too
+    _EXTRA_PARENT = {"BlockingIOError": "OSError", "ChildProcessError": "OSError", "InterruptedError": "OSError", "FileNotFoundError": "OSError", "BrokenPipeError": "ConnectionError",
+                     "PermissionError": "OSError", "ProcessLookupError": "OSError"}
+    if exc in _EXTRA_PARENT and exc not in q.EXC_PARENT:
+        h = protected(pm, node, _EXTRA_PARENT[exc], stop)
+        if h is not None:
+            return h
     child = node
     for a in q.ancestors(pm, node):
         if a is stop or isinstance(a, q.ScopeNode):
